@@ -139,16 +139,20 @@ def _by(s):
 
 
 def gen_tables(impl_dir, out_dir):
+    from props import _c04_gen
+    progs = _c04_gen.translate(impl_dir)      # raises TranslateError (fail closed) before anything is written
     rows = analyse(impl_dir)
     txt = ("(* GENERATED by props/_c04_tables.py from psutil/__init__.py, _pslinux.py, _psposix.py, _common.py of the tree under test\n"
            "   (ast): the module-level synchronisation objects (threading.Lock/RLock/Condition/...) referenced by code reachable from\n"
            "   process_iter / pids / pid_exists: (module, name, kind, re-initialised in an os.register_at_fork(after_in_child=...)\n"
            "   handler?).  Do not edit: rewritten on every run of ./vcheck C04 when the source changes. *)\n"
-           "From PV Require Import Base.Prelude.\n\n"
+           "From PV Require Import Base.Prelude C04.PyGen.\n\n"
            "Definition gen_sync_objects : list (list Z * list Z * list Z * bool) :=\n  [")
     txt += ";\n    ".join("(%s, %s, %s, %s) (* %s.%s : %s *)" % (_by(m), _by(n), _by(k), "true" if r else "false", m, n, k)
                           for m, n, k, r in rows)
-    txt += "].\n"
+    txt += "].\n\n"
+    txt += ("(* GENERATED by props/_c04_gen.py from psutil/__init__.py of the tree under test (ast): pid_exists(), the prologue and\n"
+            "   the loop body of process_iter() as programs of the statement languages of C04/PyGen.v. *)\n" + progs)
     os.makedirs(out_dir, exist_ok=True)
     p = os.path.join(out_dir, "C04_Tables.v")
     old = open(p).read() if os.path.exists(p) else None
